@@ -130,7 +130,17 @@ class Model(object):
                 return True
         return False
 
-    def evaluate(self, d, t, view):
+    def evaluate(self, d, t, view, mags=None):
+        """numpy evaluation of a tree; ``mags`` collects the magnitudes of all intermediate results (a last-bit difference in
+        one of them - numpy's pow is not bit-reproducible - survives a cancelling subtraction at that absolute size)."""
+        out = self._evaluate(d, t, view, mags)
+        if mags is not None:
+            with np.errstate(all='ignore'):
+                a = np.abs(np.asarray(out, dtype=float))
+            mags.append(np.where(np.isfinite(a), a, 0.0))
+        return out
+
+    def _evaluate(self, d, t, view, mags):
         k = t[0]
         if k == 'const':
             return t[1]
@@ -140,7 +150,7 @@ class Model(object):
                 a = self.raw[id(cid)]
                 return a if view is None else a[view]
             if id(cid) in self.trees:
-                return self.evaluate(d, self.trees[id(cid)], view)
+                return self.evaluate(d, self.trees[id(cid)], view, mags)
             # pixel / world inputs
             if cid in d.pixel_component_ids:
                 # Data computes pixel coordinates with np.ogrid, i.e. as integers (matters for signed zeros and pow)
@@ -151,22 +161,26 @@ class Model(object):
             return a if view is None else a[view]
         if k in OPS:
             with np.errstate(all='ignore'):
-                return OPS[k](self.evaluate(d, t[1], view), self.evaluate(d, t[2], view))
+                return OPS[k](self.evaluate(d, t[1], view, mags), self.evaluate(d, t[2], view, mags))
         if k == 'fn':
-            args = [np.asarray(self.evaluate(d, x, view)) for x in t[2]]
+            args = [np.asarray(self.evaluate(d, x, view, mags)) for x in t[2]]
             f = LF.ONE[t[1]][0] if t[1] in LF.ONE else LF.TWO[t[1]]
             return f(*args)
         raise ValueError(t)
 
 
-def same(a, b):
+def same(a, b, scale=None):
     a, b = np.asarray(a, dtype=float), np.asarray(b, dtype=float)
     if a.shape != b.shape:
         return False
     with np.errstate(all='ignore'):
         # exact, except that numpy's vectorised pow may differ from its scalar loop in the last bit depending on array
-        # length and alignment: a relative tolerance of 1e-12 covers that and nothing a wrong expression would produce
-        close = np.abs(a - b) <= 1e-12 * np.maximum(np.abs(a), np.abs(b))
+        # length and alignment: a relative tolerance of 1e-12 covers that and nothing a wrong expression would produce.
+        # ``scale``: the largest intermediate magnitude per element - the difference survives cancellation at that size
+        ref = np.maximum(np.abs(a), np.abs(b))
+        if scale is not None:
+            ref = np.maximum(np.where(np.isfinite(ref), ref, 0.0), scale)
+        close = np.abs(a - b) <= 1e-12 * ref
     return bool(np.all((a == b) | (np.isnan(a) & np.isnan(b)) | close))
 
 
@@ -349,9 +363,14 @@ def _execute(case, res):
                 tree = m.trees[id(c)]
                 if any(id(r) in m.orphan for r in m.refs(tree, [])):
                     continue
-                exp = m.evaluate(d, tree, view)
+                mags = []
+                exp = m.evaluate(d, tree, view, mags)
                 got = d[c, view] if view is not None else d[c]
-                full = np.broadcast_to(np.asarray(exp, dtype=float), np.empty(d.shape)[view].shape if view is not None else d.shape)
+                tshape = np.empty(d.shape)[view].shape if view is not None else d.shape
+                full = np.broadcast_to(np.asarray(exp, dtype=float), tshape)
+                scale = np.zeros(tshape)
+                for mg in mags:
+                    scale = np.maximum(scale, np.broadcast_to(mg, tshape))
                 res.nchecks += 1
                 res.nontrivial = True
                 if view is not None:
@@ -364,7 +383,7 @@ def _execute(case, res):
                 m.age[id(c)] = m.age.get(id(c), 0) + 1
                 res.fp(m.kinds[id(c)], tree_shape(tree), sorted(set(input_kind(d, m, r) for r in m.refs(tree, []))),
                        'none' if view is None else str(v)[:12], d.ndim, min(m.age[id(c)], 3))
-                if not same(got, full):
+                if not same(got, full, scale):
                     raise Violation('C14/derived-value-wrong/%s' % m.kinds[id(c)],
                                     '%s (%s) view %s: glue %s, expression %s' % (c.label, tree_text(tree), v,
                                                                                   np.asarray(got).reshape(-1)[:6], np.asarray(full).reshape(-1)[:6]))
